@@ -120,7 +120,12 @@ def shard(ctx, k, payload):
 
     def body(data):
         p = data.draw(scenario.personas())
-        bias = data.draw(st.sampled_from(['none', 'owes', 'refund', 'big_deductions', 'low_income_nc', 'apply_refund', 'credits_over_tax', 'interest_refund', 'nc_refund_with_use_tax']))
+        bias = data.draw(st.sampled_from(['none', 'owes', 'refund', 'big_deductions', 'low_income_nc', 'apply_refund', 'credits_over_tax', 'interest_refund', 'nc_refund_with_use_tax', 'nc_use_tax_credit']))
+        if bias == 'nc_use_tax_credit':
+            # few out-of-state purchases on which another state's sales tax was paid (worksheet line 3 against line 2)
+            p.update(forms=['1040', 'nc_d-400'], use_tax='records', small_purchases=True, n_1098=max(1, p['n_1098']))
+            if p['status'] == 'QSS':
+                p['status'] = 'Single'
         if bias == 'nc_refund_with_use_tax':
             # an N.C. return that is overpaid and owes consumer use tax (line 18 > 0 separates line 17 from line 19)
             p.update(forms=['1040', 'nc_d-400'], nc_withholding=True, withhold_share=0.5, use_tax=data.draw(st.sampled_from(['table', 'records'])),
@@ -168,7 +173,7 @@ def shard(ctx, k, payload):
         # dollars either side of zero: the balance equations have their corner there
         v_ = r.values
         for form_, key_, tax_l, pay_l in (('1040', 'w-2:0.box_2', '1040.24', '1040.33'), ('nc_d-400', 'w-2:0.box_17', 'nc_d-400.19', 'nc_d-400.25')):
-            if key_ not in sc['inputs'] or tax_l not in v_ or pay_l not in v_ or data.draw(st.integers(0, 2)) != 0:
+            if key_ not in sc['inputs'] or tax_l not in v_ or pay_l not in v_ or (form_ != '1040' and data.draw(st.integers(0, 1)) != 0):
                 continue
             try:
                 old_ = float(sc['inputs'][key_].strip() or 0)
